@@ -15,6 +15,9 @@ type SigLookup = absstate.SigLookup
 
 type blockEvent struct {
 	Ev          string                 `json:"ev"`
+	Variant     string                 `json:"variant,omitempty"`
+	Class       string                 `json:"class,omitempty"`
+	Clamped     bool                   `json:"clamped,omitempty"`
 	Blk         *absstate.Block        `json:"blk"`
 	Oracle      map[string]interface{} `json:"oracle"`
 	Accepted    bool                   `json:"accepted"`
@@ -22,13 +25,75 @@ type blockEvent struct {
 	Err         string                 `json:"err"`
 	Panic       string                 `json:"panic,omitempty"`
 	RootOK      bool                   `json:"root_ok"`
-	Post        *absstate.State        `json:"post"`
+	// Neg events that zrnt rejected: the same block run once more WITHOUT result validation (no proposer
+	// signature / state root check) on another copy.  When that succeeds, Unvalidated is the resulting state
+	// and UnvalidatedRootOK tells whether the declared state root is its root.
+	Unvalidated       *absstate.State `json:"unvalidated,omitempty"`
+	UnvalidatedRootOK bool            `json:"unvalidated_root_ok"`
+	Post        *absstate.State        `json:"post,omitempty"`
 }
 
 // StateTransition runs common.StateTransition(ctx, spec, epc, state, env, validate) on the live state and
 // logs a Block event: the abstract block, the oracle for the slots and the block, zrnt's verdict and the
 // projected post-state.
 func (r *Recorder) StateTransition(ctx context.Context, spec *common.Spec, epc *common.EpochsContext, state common.UpgradeableBeaconState, env *common.BeaconBlockEnvelope, validate bool) error {
+	return r.transition(ctx, spec, epc, state, env, validate, "Block", "", "")
+}
+
+// NegBlock runs common.StateTransition for a (usually invalid) variant of a block on a COPY of the given
+// state and context and logs it as a Neg event: the history does not advance.  The copy gets its own
+// pubkey cache (the variant may carry deposits the real chain never sees).  The returned error is zrnt's.
+func (r *Recorder) NegBlock(ctx context.Context, spec *common.Spec, epc *common.EpochsContext, state common.BeaconState, env *common.BeaconBlockEnvelope, variant, class string) error {
+	inner, err := absstate.Unwrap(state).CopyState()
+	if err != nil {
+		return err
+	}
+	work := &beacon.StandardUpgradeableBeaconState{BeaconState: inner}
+	epc2 := epc.Clone()
+	vals, err := inner.Validators()
+	if err != nil {
+		return err
+	}
+	if epc2.ValidatorPubkeyCache, err = common.NewPubkeyCache(vals); err != nil {
+		return err
+	}
+	probe, expect := r.ProbeSlots, r.ExpectValid
+	r.ProbeSlots, r.ExpectValid = false, false
+	defer func() { r.ProbeSlots, r.ExpectValid = probe, expect }()
+	// a second, untouched copy for the unvalidated run
+	inner2, err := absstate.Unwrap(state).CopyState()
+	if err != nil {
+		return err
+	}
+	epc3 := epc.Clone()
+	if epc3.ValidatorPubkeyCache, err = common.NewPubkeyCache(vals); err != nil {
+		return err
+	}
+	r.unvalidated = func() (*absstate.State, bool) {
+		w := &beacon.StandardUpgradeableBeaconState{BeaconState: inner2}
+		ok := false
+		func() {
+			defer func() { recover() }()
+			ok = common.StateTransition(ctx, spec, epc3, w, env, false) == nil
+		}()
+		if !ok {
+			return nil, false
+		}
+		abs, err := absstate.Project(spec, w)
+		if err != nil {
+			return nil, false
+		}
+		raw, err := absstate.Raw(spec, w)
+		if err != nil {
+			return nil, false
+		}
+		return abs, raw.Root == env.StateRoot
+	}
+	defer func() { r.unvalidated = nil }()
+	return r.transition(ctx, spec, epc2, work, env, true, "Neg", variant, class)
+}
+
+func (r *Recorder) transition(ctx context.Context, spec *common.Spec, epc *common.EpochsContext, state common.UpgradeableBeaconState, env *common.BeaconBlockEnvelope, validate bool, kind, variant, class string) error {
 	cur, err := state.Slot()
 	if err != nil {
 		return err
@@ -89,7 +154,7 @@ func (r *Recorder) StateTransition(ctx context.Context, spec *common.Spec, epc *
 	if err != nil {
 		return err
 	}
-	ev := &blockEvent{Ev: "Block", Oracle: oracle, ExpectValid: r.ExpectValid}
+	ev := &blockEvent{Ev: kind, Variant: variant, Class: class, Oracle: oracle, ExpectValid: r.ExpectValid}
 	var ret error
 	func() {
 		defer func() {
@@ -118,21 +183,34 @@ func (r *Recorder) StateTransition(ctx context.Context, spec *common.Spec, epc *
 	if r.EngineOK != nil {
 		engineOK = r.EngineOK()
 	}
-	ev.Blk, err = absstate.AbstractBlock(spec, env, &absstate.BlockCtx{Sigs: r.Sigs, DepositIndex: uint64(depIndex), EngineOK: engineOK})
+	bctx := &absstate.BlockCtx{Sigs: r.Sigs, DepositIndex: uint64(depIndex), EngineOK: engineOK, Lenient: kind == "Neg"}
+	ev.Blk, err = absstate.AbstractBlock(spec, env, bctx)
 	if err != nil {
 		return err
 	}
-	ev.Post, err = absstate.Project(spec, state)
-	if err != nil {
-		return err
+	ev.Clamped = bctx.Clamped
+	if ev.Accepted || kind != "Neg" {
+		ev.Post, err = absstate.Project(spec, state)
+		if err != nil {
+			return err
+		}
 	}
-	raw, err := absstate.Raw(spec, state)
-	if err != nil {
-		return err
+	if ev.Post != nil {
+		raw, err := absstate.Raw(spec, state)
+		if err != nil {
+			return err
+		}
+		ev.RootOK = raw.Root == env.StateRoot
 	}
-	ev.RootOK = raw.Root == env.StateRoot
 	ev.Blk.StateRootOK = ev.RootOK
-	countBlock(spec, r.C, ev, preAbs, int(env.Slot-cur))
+	if kind == "Neg" && !ev.Accepted && r.unvalidated != nil {
+		ev.Unvalidated, ev.UnvalidatedRootOK = r.unvalidated()
+	}
+	if kind == "Neg" {
+		countNeg(r.C, ev, preAbs)
+	} else {
+		countBlock(spec, r.C, ev, preAbs, int(env.Slot-cur))
+	}
 	if err := r.emit(ev); err != nil {
 		return err
 	}
